@@ -10,9 +10,10 @@ NOT_CLAIMED = {}
 BASELINE = ("cd /repo && /venv/bin/python -m pytest -ra -q -p no:cacheprovider --timeout=900 "
             "--continue-on-collection-errors")
 checks, na = [], []
+CLAIMED = set(open(os.path.join(HERE, "tools", "claimed.txt")).read().split())
 for pid in ALL:
     path = os.path.join(HERE, "harness", "props", pid.lower() + ".py")
-    if not os.path.exists(path):
+    if pid not in CLAIMED or not os.path.exists(path):
         na.append({"property_id": pid, "reason": NOT_CLAIMED.get(
             pid, "no check registered yet: the Coq model / theorems / correspondence for this property are not "
                  "built in this snapshot (the technique applies; see DESIGN.md section 6)")})
